@@ -153,7 +153,7 @@ func (vc *VC) doCall(c *ssa.CallCommon, v ssa.Value, st *State, pos token.Pos) *
 	var args []TV
 	if c.IsInvoke() {
 		recv := vc.val(c.Value)
-		vc.oblige("nil-deref", "", not(eq(sx("ityp", recv.S), "0")), pos)
+		vc.nilObl(c.Value, not(eq(sx("ityp", recv.S), "0")), pos)
 		args = append(args, recv)
 	}
 	for _, a := range c.Args {
@@ -168,6 +168,9 @@ func (vc *VC) doCall(c *ssa.CallCommon, v ssa.Value, st *State, pos token.Pos) *
 	if key != "" && isPureExternal(key) {
 		vc.assumeNote("effect-free external (results unconstrained): " + pureGroup(key))
 		return vc.havocResult(v, c, st)
+	}
+	if fn != nil && vc.isLeafGetter(fn) && vc.inlineDepth < 3 {
+		return vc.inlineCall(fn, args, v, st)
 	}
 	// unknown callee: everything may change
 	if fn == nil && !c.IsInvoke() {
@@ -778,4 +781,59 @@ func (vc *VC) copyCall(c *ssa.CallCommon, v ssa.Value, st *State, pos token.Pos)
 	}
 	tv := vc.setVal(v, n)
 	return &tv
+}
+
+// isLeafGetter: a repository function with one basic block that only reads
+// fields / computes pure values (no calls, stores, allocation).
+func (vc *VC) isLeafGetter(fn *ssa.Function) bool {
+	if len(fn.Blocks) != 1 || fn.Pkg == nil || !strings.HasPrefix(fn.Pkg.Pkg.Path(), vc.prog.module) {
+		return false
+	}
+	if len(fn.FreeVars) > 0 {
+		return false
+	}
+	for _, ins := range fn.Blocks[0].Instrs {
+		switch x := ins.(type) {
+		case *ssa.DebugRef, *ssa.FieldAddr, *ssa.Field, *ssa.Return, *ssa.ChangeType, *ssa.BinOp, *ssa.Convert, *ssa.Slice, *ssa.IndexAddr:
+		case *ssa.UnOp:
+			if x.Op == token.ARROW {
+				return false
+			}
+		default:
+			return false
+		}
+	}
+	return true
+}
+
+func (vc *VC) inlineCall(fn *ssa.Function, args []TV, v ssa.Value, st *State) *TV {
+	vc.inlineDepth++
+	defer func() { vc.inlineDepth-- }()
+	for i, p := range fn.Params {
+		if i < len(args) {
+			vc.vals[p] = TV{T: p.Type(), S: args[i].S}
+		}
+	}
+	var res *TV
+	for _, ins := range fn.Blocks[0].Instrs {
+		if r, ok := ins.(*ssa.Return); ok {
+			if v == nil {
+				return nil
+			}
+			if len(r.Results) == 1 {
+				tv := vc.setVal(v, vc.val(r.Results[0]).S)
+				res = &tv
+			} else {
+				tv := TV{T: v.Type()}
+				for _, x := range r.Results {
+					tv.Tup = append(tv.Tup, vc.val(x))
+				}
+				vc.vals[v] = tv
+				res = &tv
+			}
+			break
+		}
+		vc.instr(ins, st)
+	}
+	return res
 }
